@@ -27,7 +27,6 @@ pub fn agrees<A: Array<Item = u64> + Copy + Eq + Ord + Hash>(l: &Lmer<A>, m: &[u
     let canon = Lmer::<A>::from_slice(m);
     need!(*l == canon, "raw value differs from from_slice(model): bits outside the addressed bases changed (length byte or garbage beyond len)");
     need!(h(l) == h(&canon) && l.cmp(&canon) == std::cmp::Ordering::Equal, "hash/cmp differ from from_slice(model)");
-    need!(format!("{:?}", l) == ascii(m), "Debug");
     None
 }
 
